@@ -50,7 +50,10 @@ func checkC38(p *Prog, r *Report) {
 				nonNil++
 			}
 		}
-		r.check(len(calls) >= 2 && nonNil >= 2, rule, "both statements were recognised as plain subinclude calls", p.pos(app.Pos()), fnName(simp), "the merge is on the non-nil edge of subinclude() for both statements", "two statements are merged without both having been recognised by subinclude(): an arbitrary call (or a subinclude with keyword arguments) is folded into the previous statement")
+		forward := len(calls) > 0 && !p.indexedStatements(calls)
+		if !forward {
+			r.check(len(calls) >= 2 && nonNil >= 2, rule, "both statements were recognised as plain subinclude calls", p.pos(app.Pos()), fnName(simp), "the merge is on the non-nil edge of subinclude() for both statements", "two statements are merged without both having been recognised by subinclude(): an arbitrary call (or a subinclude with keyword arguments) is folded into the previous statement")
+		}
 		// indices: first = Stmt[i], second = Stmt[i+1]
 		idxOf := func(c *ssa.Call) (ssa.Value, int64, bool) {
 			for x := range backSlice(c.Call.Args[0], SliceOpts{}) {
@@ -82,6 +85,11 @@ func checkC38(p *Prog, r *Report) {
 			if ok && off == 1 && b == base {
 				second = c
 			}
+		}
+		if first == nil && second == nil && !p.indexedStatements(calls) {
+			// not the stmt[i] / stmt[i+1] shape: try the single forward pass with a run head
+			p.c38ForwardForm(r, simp, sub, app)
+			goto recognition
 		}
 		okOrder := first != nil && second != nil && derivesFromValue(app.Call.Args[0], first) && !derivesFromValue(app.Call.Args[0], second) && derivesFromValue(app.Call.Args[1], second) && !derivesFromValue(app.Call.Args[1], first)
 		r.check(okOrder, rule, "merged list = arguments of statement i, then those of statement i+1", p.pos(app.Pos()), fnName(simp), "append(stmt[i].List, stmt[i+1].List...)", "the merged subinclude lists its arguments in another order than the statements had (or merges non-adjacent statements): a later subinclude no longer overrides an earlier one in the same way")
@@ -120,6 +128,7 @@ func checkC38(p *Prog, r *Report) {
 		r.check(delOK, rule, "slices.Delete(stmts, i+1, i+2) after the merge", p.pos(simp.Pos()), fnName(simp), "exactly statement i+1 is removed, after its arguments were appended", "the statement removed after a merge is not exactly the one whose arguments were appended (or it is removed before): a statement is lost or duplicated")
 		r.check(backwards, rule, "the scan runs from the end towards the start", p.pos(simp.Pos()), fnName(simp), "the index decreases, so a deletion never shifts an unexamined statement", "statements are deleted while scanning forwards: the statement that slides into place is skipped, so runs of three or more subincludes are merged only partly and a second `plz fmt` changes the file again")
 	}
+recognition:
 	// (4)
 	rule = "E5.subinclude-recognition"
 	{
@@ -208,4 +217,147 @@ func checkC38(p *Prog, r *Report) {
 			r.check(diff && parsed, rule, "rewrite only for a parsed file whose formatted bytes differ", p.pos(wf.Pos()), fnName(fmtFn), "fs.WriteFile is on the bytes.Equal(before, after) == false edge, after a successful parse", "the file can be rewritten although formatting changed nothing, or although it failed to parse")
 		}
 	}
+}
+
+// c38ForwardForm: simplify written as one forward pass over f.Stmt that keeps the head of the current run of
+// subincludes in a loop-carried variable and builds a new statement list. Clauses: the merge appends the current
+// statement's arguments behind the head's; on every way round the loop that does not merge, the head becomes the
+// current statement's subinclude() result (nil for anything else), so only adjacent statements are merged; every
+// statement that is not merged is kept, and a merged one is not.
+func (p *Prog) c38ForwardForm(r *Report, simp, sub *ssa.Function, app *ssa.Call) {
+	ruleO, ruleD := "E7.merge-preserves-order", "E5.delete-exactly-the-merged-statement"
+	var loop *rloop
+	for _, l := range sliceRangeLoops(simp) {
+		l := l
+		if tagsOf(l.over, SliceOpts{})["github.com/please-build/buildtools/build.File.Stmt"] && l.blocks[app.Block()] {
+			loop = &l
+		}
+	}
+	var head *ssa.Phi
+	if loop != nil {
+		for x := range backSlice(app.Call.Args[0], SliceOpts{}) {
+			if ph, ok := x.(*ssa.Phi); ok && ph.Block() == loop.header && strings.HasSuffix(typeString(ph.Type()), "build.CallExpr") {
+				head = ph
+			}
+		}
+	}
+	var cur *ssa.Call
+	if loop != nil {
+		for _, ci := range callsInFn(simp, sub) {
+			if c, ok := ci.(*ssa.Call); ok && loop.blocks[c.Block()] && derivesFromValue(app.Call.Args[1], c) {
+				cur = c
+			}
+		}
+	}
+	if loop == nil || head == nil || cur == nil {
+		r.info(ruleO, "merge shape not recognised", p.pos(simp.Pos()), fnName(simp), "simplify merges argument lists neither as stmt[i]/stmt[i+1] nor as a forward pass with a run head: order and adjacency of the merge are not decided for this implementation")
+		r.okTrivial(ruleO, "not applicable to this implementation", p.pos(simp.Pos()), fnName(simp), "unrecognised merge shape")
+		return
+	}
+	shallowBase := func(v ssa.Value) ssa.Value {
+		for d := 0; d < 6; d++ {
+			switch x := v.(type) {
+			case *ssa.UnOp:
+				v = x.X
+			case *ssa.FieldAddr:
+				v = x.X
+			case *ssa.Slice:
+				v = x.X
+			default:
+				return v
+			}
+		}
+		return v
+	}
+	// both operands of the merge are recognised subincludes: the current statement by its non-nil fact, the head by its
+	// non-nil fact (and, below, by only ever holding subinclude() results)
+	{
+		curOK, headOK := false, false
+		if k, isNil := errKnown(factsAt(app), []ssa.Value{cur}); k && !isNil {
+			curOK = true
+		}
+		if k, isNil := errKnown(factsAt(app), []ssa.Value{head}); k && !isNil {
+			headOK = true
+		}
+		r.check(curOK && headOK, "E5.merge-only-recognised-subincludes", "both statements were recognised as plain subinclude calls", p.pos(app.Pos()), fnName(simp), "the merge is on the non-nil edge of subinclude() for the current statement and of the run head", "two statements are merged without both having been recognised by subinclude()")
+	}
+	r.check(shallowBase(app.Call.Args[0]) == ssa.Value(head) && shallowBase(app.Call.Args[1]) == ssa.Value(cur), ruleO, "merged list = arguments of the run head, then those of the current statement", p.pos(app.Pos()), fnName(simp), "append(head.List, current.List...)", "the merged subinclude lists the current statement's arguments before the earlier ones")
+	// the head after a non-merging iteration is the current statement's subinclude() result
+	var resolve func(v ssa.Value, pred *ssa.BasicBlock, depth int) bool
+	resolve = func(v ssa.Value, pred *ssa.BasicBlock, depth int) bool {
+		if depth > 6 {
+			return false
+		}
+		switch x := v.(type) {
+		case *ssa.Const:
+			return x.Value == nil
+		case *ssa.Call:
+			return x == cur
+		case *ssa.Phi:
+			if x == head {
+				// unchanged head: only on a path that merged
+				return len(pred.Instrs) > 0 && instrDominates(app, pred.Instrs[len(pred.Instrs)-1])
+			}
+			for k, e := range x.Edges {
+				if !resolve(e, x.Block().Preds[k], depth+1) {
+					return false
+				}
+			}
+			return true
+		}
+		return false
+	}
+	adjacent := true
+	for k, e := range head.Edges {
+		pred := loop.header.Preds[k]
+		if !loop.blocks[pred] {
+			continue // loop entry
+		}
+		if !resolve(e, pred, 0) {
+			adjacent = false
+		}
+	}
+	r.check(adjacent, ruleO, "only adjacent statements are merged", p.pos(simp.Pos()), fnName(simp), "after every iteration that does not merge, the run head is the current statement's subinclude() result (nil for any other statement)", "the head of a run of subincludes survives a statement that is not a subinclude (an assignment, def, if, for, a comment): a later subinclude is merged into an earlier one across that statement and is evaluated before it")
+	// kept / dropped statements
+	isKeep := func(i ssa.Instruction) bool {
+		c, ok := i.(*ssa.Call)
+		if !ok {
+			return false
+		}
+		b, ok := c.Call.Value.(*ssa.Builtin)
+		return ok && b.Name() == "append" && c != app && strings.HasSuffix(typeString(c.Type()), "build.Expr")
+	}
+	skips := loop.iterationSkips(func(i ssa.Instruction) bool { return isKeep(i) || i == ssa.Instruction(app) })
+	both := false
+	eachInstr(simp, false, func(_ *ssa.Function, i ssa.Instruction) {
+		if isKeep(i) && loop.blocks[i.Block()] && (instrDominates(app, i) || existsPath(simp, app, i, func(j ssa.Instruction) bool { return j.Block() == loop.header })) {
+			both = true
+		}
+	})
+	r.check(!skips && !both, ruleD, "every statement is either merged or kept, never both", p.pos(simp.Pos()), fnName(simp), "each iteration passes the merge or the append to the new statement list, and the append is not reachable after the merge within an iteration", "a statement can be dropped without having been merged, or is kept although its arguments were merged into the run head")
+}
+
+// indexedStatements: does any subinclude() call take an element of a slice addressed by an explicit index expression
+// (as opposed to a range value)? Then simplify is in the index form and the i / i+1 clauses apply.
+func (p *Prog) indexedStatements(calls []*ssa.Call) bool {
+	for _, c := range calls {
+		for x := range backSlice(c.Call.Args[0], SliceOpts{}) {
+			if ia, ok := x.(*ssa.IndexAddr); ok {
+				if ph, ok := ia.Index.(*ssa.BinOp); ok {
+					if cm := ph.Referrers(); cm != nil {
+						// the rangeindex increment feeds the loop test; an explicit index does not have the #rangeindex comment
+						if phi, ok := ph.X.(*ssa.Phi); ok && phi.Comment == "rangeindex" {
+							continue
+						}
+					}
+					return true
+				}
+				if _, ok := ia.Index.(*ssa.Phi); ok {
+					return true
+				}
+				return true
+			}
+		}
+	}
+	return false
 }
